@@ -129,6 +129,7 @@ fn reuse(ctx: &mut Ctx) {
             let gas = *ctx.rng.pick(&[5_000u64, 50_000, 300_000]);
             let mut knobs = g::Knobs::normal();
             knobs.fault_pm = *ctx.rng.pick(&[0, 30, 100]);
+            knobs.code_ops = ctx.rng.chance(1, 2);     // storage / balance / code instructions: warm slot caches
             if unlisted { knobs.unlisted_pm = 300; }
             let seed = ctx.rng.0;
             match ctx.guard(|| { let mut r = crate::ctx::Rng(seed); let c = g::gen_case(&mut r, knobs, gas, None); (c, r) }) {
@@ -170,6 +171,9 @@ fn reuse(ctx: &mut Ctx) {
                 _ => { let _ = ctx.guard(|| run_on(&mut vm, &h)); kinds.push(if unl { "tx-unlisted" } else { "tx" }); }
             }
         }
+        // the target itself first (then its storage is put back): a slot cache that survives initialisation would
+        // serve the first run's values and hot-read prices to the second run
+        if ctx.rng.chance(1, 2) { let _ = ctx.guard(|| run_on(&mut vm, &target)); kinds.push("same-tx-before"); }
         for k in &kinds { ctx.count(&format!("reuse.history.{k}")); }
         if vm.receipts().iter().any(|r| matches!(r, fuel_tx::Receipt::Panic { contract_id: Some(_), .. })) { ctx.count("reuse.history-ended-with-panic-contract-id"); }
         let c = match ctx.guard(|| run_on(&mut vm, &target)) { Ok(c) => c, Err(m) => { ctx.oracle_fail("panic-reused", &tag, &m); continue; } };
